@@ -3,7 +3,6 @@
 package storage
 
 import (
-	"fmt"
 	"math/rand"
 	"os"
 	"path/filepath"
@@ -283,7 +282,7 @@ func TestVerifC05(t *testing.T) {
 			// too many schedules to enumerate: add as many uniformly random walks through the schedule tree
 			w.Sample(vc05StorageLevel, s, maxRuns, rng.Intn)
 		}
-		w.Comment(fmt.Sprintf("scenario %s threads=%d schedules=%d truncated=%v", s.Name, len(s.Threads), n, cut))
+		w.Count(s, n, cut)
 	}
 
 	// sequential replays around the TTL (clock control: miniredis)
